@@ -215,8 +215,8 @@ func (in *interp) cmd(c *Cmd) {
 		for i, item := range l.L {
 			in.env.push()
 			in.env.set(c.Var, item)
-			in.env.set(c.Var+"__index", I(int64(i)))
-			in.env.set(c.Var+"__last", I(int64(len(l.L)-1)))
+			in.env.set(c.Var+" index", I(int64(i)))
+			in.env.set(c.Var+" last", I(int64(len(l.L)-1)))
 			in.block(c.Body)
 			in.env.pop()
 		}
